@@ -59,6 +59,15 @@ func KeyFor(keySeed uint64, idx int) crypto.PrivateKey {
 
 func AddrOf(pk crypto.PrivateKey) sdk.Address { return sdk.Address(pk.PublicKey().Address()) }
 
+func isMulti(idx int) bool { return idx >= multiBase && idx < multiBase+nMulti }
+
+// MultiKeyFor returns the multi-signature public key of account idx and its member private keys.
+func MultiKeyFor(keySeed uint64, idx int) (crypto.PublicKeyMultiSignature, []crypto.PrivateKey) {
+	j := idx - multiBase
+	m := []crypto.PrivateKey{KeyFor(keySeed, multiMember+2*j), KeyFor(keySeed, multiMember+2*j+1)}
+	return crypto.PublicKeyMultiSignature{PublicKeys: []crypto.PublicKey{m[0].PublicKey(), m[1].PublicKey()}}, m
+}
+
 // ---------------------------------------------------------------- config
 
 // Config is the swarm configuration of one run (all drawn from the seed, recorded in the
@@ -124,6 +133,11 @@ const (
 	outputBase = 200
 	appBase    = 300
 	spareBase  = 400
+	// multiBase+j is a two-of-two multi-signature account: its address is that of the multi-key made
+	// of the keys multiMember+2j and multiMember+2j+1, and its transactions carry both signatures
+	multiBase   = 700
+	multiMember = 7000
+	nMulti      = 2
 )
 
 const wallet0Balance = 5_000_000_000
@@ -324,6 +338,10 @@ func BuildGenesis(cfg *Config) app.GenesisState {
 	}
 	for i := 0; i < cfg.NSpare; i++ {
 		fund(spareBase+i, 900_000_000)
+	}
+	for j := 0; j < nMulti; j++ {
+		mk, _ := MultiKeyFor(cfg.KeySeed, multiBase+j)
+		authGS.Accounts = append(authGS.Accounts, &auth.BaseAccount{Address: sdk.Address(mk.Address()), Coins: sdk.NewCoins(sdk.NewCoin(sdk.DefaultStakeDenom, sdk.NewInt(50_000_000+int64(j)*7)))})
 	}
 	gen[auth.ModuleName] = cdc.MustMarshalJSON(authGS)
 
